@@ -71,11 +71,15 @@ type c07Caller struct {
 	reqQoS  []byte
 	// mirror of the one-request automaton (used by the generator and to know when a PUBREL is due)
 	started bool
-	phase   int // 0 not started, 1 waiting first ack, 2 got PUBREC, 3 waiting PUBCOMP, 4 finished
+	phase   int // 0 not started, 1 waiting first ack, 2 got PUBREC, 3 waiting PUBCOMP, 4 finished, 5 gave up
+	// giving up: the script cancels the context (cancel) or gives it a short deadline
+	deadline time.Duration
+	cancel   context.CancelFunc
+	doomed   bool // the script has ended / will end this caller's context
 	// outcome, written by the caller goroutine under run.mu
 	done     chan struct{}
 	returned bool
-	status   string // "succ", "inv", "closed", "other:<text>"
+	status   string // "succ", "inv", "closed", "ctx", "other:<text>"
 	granted  []mqtt.Subscription
 	stamp    int
 }
@@ -105,6 +109,7 @@ type c07Run struct {
 	marker   chan int
 	impl     []string // observations only the Go side can judge (hangs)
 	sent     []c07Ack
+	stale    map[[2]int]bool // (ack kind, id) of waiter entries left behind by callers that gave up
 }
 
 func c07Varint(b []byte) (int, int) {
@@ -172,7 +177,7 @@ func (r *c07Run) onPkt(pkt []byte) {
 		typ = "resume"
 		r.mu.Lock()
 		for _, x := range r.callers {
-			if x.kind == c07Pub2 && x.id == id && x.started && x.phase != 4 {
+			if x.kind == c07Pub2 && x.id == id && x.started && x.phase != 4 && x.phase != 5 {
 				c = x
 			}
 		}
@@ -199,6 +204,8 @@ func (r *c07Run) onPkt(pkt []byte) {
 
 func (r *c07Run) launch(c *c07Caller) {
 	c.done = make(chan struct{})
+	ready := make(chan struct{})
+	defer func() { <-ready }()
 	go func() {
 		defer close(c.done)
 		status := ""
@@ -209,9 +216,18 @@ func (r *c07Run) launch(c *c07Caller) {
 					status = fmt.Sprintf("other:panic %v", p)
 				}
 			}()
-			// the context is only a safety net against a leaked goroutine; no script lasts that long
-			ctx, cancel := context.WithTimeout(context.Background(), 120*time.Second)
+			// the outer context is only a safety net against a leaked goroutine; no script lasts that long
+			ctx0, cancel0 := context.WithTimeout(context.Background(), 120*time.Second)
+			defer cancel0()
+			ctx, cancel := context.WithCancel(ctx0)
+			if c.deadline > 0 {
+				ctx, cancel = context.WithTimeout(ctx0, c.deadline)
+			}
 			defer cancel()
+			r.mu.Lock()
+			c.cancel = cancel
+			r.mu.Unlock()
+			close(ready)
 			var err error
 			switch c.kind {
 			case c07Pub1, c07Pub2:
@@ -232,6 +248,8 @@ func (r *c07Run) launch(c *c07Caller) {
 				status = "succ"
 			case errors.Is(err, mqtt.ErrInvalidSubAck):
 				status = "inv"
+			case errors.Is(err, context.Canceled) || errors.Is(err, context.DeadlineExceeded):
+				status = "ctx"
 			case errors.Is(err, mqtt.ErrClosedTransport) || errors.Is(err, errClosedConn):
 				status = "closed"
 			default:
@@ -239,6 +257,14 @@ func (r *c07Run) launch(c *c07Caller) {
 			}
 		}()
 		r.mu.Lock()
+		if status == "ctx" {
+			if c.doomed {
+				// the caller gave up: this is the Cancel event of the history
+				r.events = append(r.events, c07Event{typ: "cancel", h: c.idx})
+			} else {
+				status = "other:context error although the script did not end the context"
+			}
+		}
 		c.stamp = len(r.events)
 		c.status = status
 		c.granted = granted
@@ -307,6 +333,12 @@ func (r *c07Run) waiting(kind int, id uint16) *c07Caller {
 }
 
 func (r *c07Run) idInUse(class int, id uint16) bool {
+	if class == c07Pub1 && r.stale[[2]int{0, int(id)}] {
+		return true
+	}
+	if class == c07Pub2 && (r.stale[[2]int{1, int(id)}] || r.stale[[2]int{2, int(id)}]) {
+		return true
+	}
 	for _, c := range r.callers {
 		if c.started && c.phase != 4 && c.kind == class && c.id == id {
 			return true
@@ -323,6 +355,38 @@ func (r *c07Run) outstanding() []*c07Caller {
 		}
 	}
 	return out
+}
+
+// gaveUp: mirror bookkeeping for a caller that has returned its context's error: its waiter
+// entry stays in the library's map until an acknowledgement with that identifier arrives.
+func (r *c07Run) gaveUp(c *c07Caller) {
+	if k := c.awaited(); k >= 0 {
+		r.stale[[2]int{k, int(c.id)}] = true
+	}
+	c.phase = 5
+}
+
+// cancelSome cancels the contexts of up to k callers that are blocked waiting and waits until
+// they have returned.
+func (r *c07Run) cancelSome(rng *rand.Rand, k int) {
+	out := r.outstanding()
+	rng.Shuffle(len(out), func(i, j int) { out[i], out[j] = out[j], out[i] })
+	if k > len(out) {
+		k = len(out)
+	}
+	for _, c := range out[:k] {
+		r.mu.Lock()
+		c.doomed = true
+		cancel := c.cancel
+		r.mu.Unlock()
+		cancel()
+	}
+	if !c07WaitAll(out[:k]) {
+		r.impl = append(r.impl, "stuck: a caller did not return within 5 s after its context was cancelled")
+	}
+	for _, c := range out[:k] {
+		r.gaveUp(c)
+	}
 }
 
 // startWave launches the callers: subscribes/unsubscribes first (their identifiers are chosen
@@ -383,6 +447,19 @@ func (r *c07Run) startWave(rng *rand.Rand, wave []*c07Caller) bool {
 			return false
 		}
 	}
+	// callers started with a short deadline give up on their own; nothing is sent before
+	var doomed []*c07Caller
+	for _, c := range wave {
+		if c.deadline > 0 {
+			doomed = append(doomed, c)
+		}
+	}
+	if !c07WaitAll(doomed) {
+		r.impl = append(r.impl, "stuck: a caller did not return within 5 s after its context's deadline")
+	}
+	for _, c := range doomed {
+		r.gaveUp(c)
+	}
 	return true
 }
 
@@ -412,6 +489,20 @@ func (r *c07Run) freeID(rng *rand.Rand) uint16 {
 // nextAck generates one acknowledgement from the hostile distribution.
 func (r *c07Run) nextAck(rng *rand.Rand, wide bool) (c07Ack, string) {
 	out := r.outstanding()
+	if len(r.stale) > 0 && rng.Intn(100) < 35 {
+		// late acknowledgement for a caller that gave up (map iteration order made deterministic)
+		var keys [][2]int
+		for k := range r.stale {
+			keys = append(keys, k)
+		}
+		sort.Slice(keys, func(i, j int) bool { return keys[i][0] < keys[j][0] || (keys[i][0] == keys[j][0] && keys[i][1] < keys[j][1]) })
+		k := keys[rng.Intn(len(keys))]
+		a := c07Ack{kind: k[0], id: uint16(k[1])}
+		if a.kind == 3 {
+			a.codes = c07Codes(rng, rng.Intn(5))
+		}
+		return a, "late"
+	}
 	x := rng.Intn(100)
 	mis := 6
 	if wide {
@@ -500,10 +591,16 @@ type c07Result struct {
 	blocked  int
 	kinds    map[string]int
 	stuck    bool
+	cancelMode bool
+	late     int
+	gaveUp   int
 }
 
-func c07Script(rng *rand.Rand, wide bool) (*c07Result, error) {
-	r := &c07Run{byFilter: map[string]*c07Caller{}, notes: make(chan c07Note, 256), marker: make(chan int, 16)}
+// cancelMode: 1-3 callers give up (context cancelled, or started with a short deadline) before
+// their acknowledgement is sent; further requests are started afterwards; the acknowledgements
+// of the callers that gave up are sent late.
+func c07Script(rng *rand.Rand, wide bool, cancelMode bool) (*c07Result, error) {
+	r := &c07Run{byFilter: map[string]*c07Caller{}, notes: make(chan c07Note, 256), marker: make(chan int, 16), stale: map[[2]int]bool{}}
 	s, err := newSession(false, func(_ *session, pkt []byte) { r.onPkt(pkt) })
 	if err != nil {
 		return nil, err
@@ -516,9 +613,16 @@ func c07Script(rng *rand.Rand, wide bool) (*c07Result, error) {
 	}))
 	maxN := 8
 	n := 1 + rng.Intn(maxN)
+	if cancelMode && n < 2 {
+		n = 2 + rng.Intn(maxN-1)
+	}
 	for i := 0; i < n; i++ {
 		c := &c07Caller{idx: i}
-		switch x := rng.Intn(10); {
+		x := rng.Intn(10)
+		if cancelMode && rng.Intn(3) == 0 {
+			x = 0 // more QoS 1 publishes: they follow each other closely in time
+		}
+		switch {
 		case x < 3:
 			c.kind = c07Pub1
 		case x < 6:
@@ -547,9 +651,34 @@ func c07Script(rng *rand.Rand, wide bool) (*c07Result, error) {
 		n1 = 1 + rng.Intn(n-1)
 	}
 	wave2At := 1 + rng.Intn(2*n)
-	res := &c07Result{nCallers: n, kinds: map[string]int{}}
+	explicit := 0
+	if cancelMode {
+		n1 = 1 + rng.Intn(n-1)
+		wave2At = rng.Intn(3)
+		nd := 0 // callers of the first wave that start with a short deadline
+		if rng.Intn(2) == 0 {
+			nd = 1 + rng.Intn(2)
+		}
+		for i := 0; i < nd && i < n1; i++ {
+			c := r.callers[rng.Intn(n1)]
+			c.deadline = time.Duration(200+rng.Intn(3000)) * time.Microsecond
+			c.doomed = true
+		}
+		explicit = rng.Intn(3)
+		if nd == 0 && explicit == 0 {
+			explicit = 1
+		}
+	}
+	res := &c07Result{nCallers: n, kinds: map[string]int{}, cancelMode: cancelMode}
 	ok := r.startWave(rng, r.callers[:n1])
 	wave2Done := n1 == n
+	startWave2 := func() bool {
+		wave2Done = true
+		if explicit > 0 {
+			r.cancelSome(rng, explicit)
+		}
+		return r.startWave(rng, r.callers[n1:])
+	}
 	budget := rng.Intn(3*n + 8)
 	if rng.Intn(4) == 0 {
 		budget = 4*n + 10 // long enough to finish everybody most of the time
@@ -558,8 +687,7 @@ func c07Script(rng *rand.Rand, wide bool) (*c07Result, error) {
 	closing := false
 	for acks := 0; ok && acks < budget; acks++ {
 		if !wave2Done && acks >= wave2At {
-			wave2Done = true
-			if ok = r.startWave(rng, r.callers[n1:]); !ok {
+			if ok = startWave2(); !ok {
 				break
 			}
 		}
@@ -568,15 +696,22 @@ func c07Script(rng *rand.Rand, wide bool) (*c07Result, error) {
 		}
 		a, why := r.nextAck(rng, wide)
 		w := r.waiting(a.kind, a.id)
+		if r.stale[[2]int{a.kind, int(a.id)}] {
+			// the late acknowledgement of a caller that gave up: it takes the stale entry out
+			delete(r.stale, [2]int{a.kind, int(a.id)})
+			res.late++
+		}
 		if w != nil && a.kind == 3 && len(a.codes) != len(w.filters) {
 			// this SUBACK makes the library close the transport: it is the last event of the
 			// script; first start whoever has not started yet and let every caller whose
 			// acknowledgement has been sent return
 			if !wave2Done {
-				wave2Done = true
-				if ok = r.startWave(rng, r.callers[n1:]); !ok {
+				// (the cancellations that precede the second wave may hit the subscriber
+				// itself: generate a new acknowledgement afterwards)
+				if ok = startWave2(); !ok {
 					break
 				}
+				continue
 			}
 			if !c07WaitAll(r.finished()) {
 				res.stuck = true
@@ -631,8 +766,7 @@ func c07Script(rng *rand.Rand, wide bool) (*c07Result, error) {
 	}
 	// end of script
 	if ok && !wave2Done {
-		wave2Done = true
-		r.startWave(rng, r.callers[n1:])
+		startWave2()
 	}
 	if closing {
 		if !c07WaitAll(r.callers) {
@@ -722,6 +856,13 @@ func (r *c07Run) finish(res *c07Result, closing bool) *c07Result {
 		case "resume":
 			evCoq = append(evCoq, fmt.Sprintf("Resume %d%%nat", e.h))
 			evDesc = append(evDesc, fmt.Sprintf("c%d:PUBREL", e.h))
+		case "cancel":
+			evCoq = append(evCoq, fmt.Sprintf("Cancel %d%%nat", e.h))
+			how := "ctx cancelled"
+			if r.callers[e.h].deadline > 0 {
+				how = "ctx deadline"
+			}
+			evDesc = append(evDesc, fmt.Sprintf("c%d:gave up (%s)", e.h, how))
 		}
 	}
 	var obCoq, obDesc []string
@@ -743,6 +884,10 @@ func (r *c07Run) finish(res *c07Result, closing bool) *c07Result {
 		case sn.status == "inv":
 			obCoq = append(obCoq, fmt.Sprintf("(OInv, %d%%nat)", sn.stamp))
 			obDesc = append(obDesc, fmt.Sprintf("c%d:ErrInvalidSubAck@%d", i, sn.stamp))
+		case sn.status == "ctx":
+			obCoq = append(obCoq, fmt.Sprintf("(OCancelled, %d%%nat)", sn.stamp))
+			obDesc = append(obDesc, fmt.Sprintf("c%d:ctx error@%d", i, sn.stamp))
+			res.gaveUp++
 		case sn.status == "closed":
 			obCoq = append(obCoq, fmt.Sprintf("(OClosed, %d%%nat)", sn.stamp))
 			obDesc = append(obDesc, fmt.Sprintf("c%d:ErrClosedTransport@%d", i, sn.stamp))
@@ -857,8 +1002,9 @@ func runC07(cfg *runCfg) error {
 	kinds := map[string]int{}
 	sizes := map[string]int{}
 	evTotal := 0
+	cancelScripts, gaveUp, lateAcks := 0, 0, 0
 	for i := 0; i < nScripts; i++ {
-		res, err := c07Script(rng, wide)
+		res, err := c07Script(rng, wide, i%3 == 2)
 		if err != nil {
 			return err
 		}
@@ -886,6 +1032,11 @@ func runC07(cfg *runCfg) error {
 		}
 		blocked += res.blocked
 		completions += res.complete
+		if res.cancelMode {
+			cancelScripts++
+		}
+		gaveUp += res.gaveUp
+		lateAcks += res.late
 		if res.stuck || len(res.impl) > 0 {
 			stuckScripts++
 			if stuckScripts >= 3 {
@@ -940,6 +1091,10 @@ func runC07(cfg *runCfg) error {
 	m.Distribution["calls_completed"] = completions
 	m.Distribution["calls_left_blocked_on_purpose_or_not"] = blocked
 	m.Distribution["distinct_histories"] = len(distinct)
+	m.Distribution["scripts_in_which_a_5s_wait_expired"] = stuckScripts
+	m.Distribution["scripts_with_callers_giving_up"] = cancelScripts
+	m.Distribution["calls_that_gave_up_ctx_cancel_or_deadline"] = gaveUp
+	m.Distribution["late_acknowledgements_for_calls_that_gave_up"] = lateAcks
 	m.Distribution["shared_identifier_scripts_outside_hypothesis"] = len(shared)
 	if err := cf.write(cfg.outDir); err != nil {
 		return err
